@@ -556,6 +556,9 @@ def run(chk):
     run_j4(chk, P)
     shared.rule_errno_target(chk, P, 'J5')
     run_j7(chk, P)
+    # J9 (= C12-V9): each failure is reported with the code the reference tree gives it (the guard and its error code, per function)
+    from . import c12 as _c12
+    _c12.run_v9(chk, P, 'J9', None, 2000)
     # J8 (= C05-Q7): a job handed to the stage dispatch is stamped BEING_PROCESSED first
     from . import c05 as _c05
     j8 = chk.rule('J8', 'every path that hands a job to the stage dispatch first sets its status to BEING_PROCESSED (a ring slot keeps the status of its previous use)', floor=9)
